@@ -1,6 +1,8 @@
 # C03: Box / BD_Shape / Octagonal_Shape results contain the exact result, for every bound type.
 # One translation unit per instantiation (harness/shapes.d/<name>.cc), all compiled in parallel into one executable.
-_TQ = ["mpq", "mpz", "i8", "d"]                                  # quick tier bound types
+import os as _os
+# quick tier bound types (VERIF_C03_TYPES=mpz,d restricts them, e.g. to screen a mutant faster)
+_TQ = [t for t in _os.environ.get("VERIF_C03_TYPES", "mpq,mpz,i8,d").split(",") if t]
 _TT = ["mpq", "mpz", "i8", "i16", "i32", "i64", "f", "d", "ld"]   # thorough: all nine
 def _names(ts): return ["%s_%s" % (k, t) for t in ts for k in ("box", "bds", "oct")]
 HARNESSES = {
@@ -11,11 +13,12 @@ def _runs(tier):
     runs = []
     if tier == "quick":
         for n in _names(_TQ):
-            runs.append({"harness": "shapes_c03", "args": ["--shape", n, "--mode", "C03", "--dim", "2", "--depth", "2", "--depth-ops", "1", "--consts", "small"], "budget": 280})
+            runs.append({"harness": "shapes_c03", "args": ["--shape", n, "--mode", "C03", "--dim", "2", "--depth", "2", "--depth-ops", "1", "--consts", "small"], "budget": 600})
         return runs
-    for n in _names(_TT):
-        runs.append({"harness": "shapes_c03_all", "args": ["--shape", n, "--mode", "C03", "--dim", "2", "--depth", "2", "--depth-ops", "2", "--consts", "small", "--poolq-depth", "2"], "budget": 1200})
-        runs.append({"harness": "shapes_c03_all", "args": ["--shape", n, "--mode", "C03", "--dim", "2", "--depth", "1", "--consts", "full"], "budget": 600})
+    for n in _names(_TT):      # all 27 instantiations: full boundary alphabet of the bound type
+        runs.append({"harness": "shapes_c03_all", "args": ["--shape", n, "--mode", "C03", "--dim", "2", "--depth", "2", "--depth-ops", "1", "--consts", "full"], "budget": 1500})
+    for n in _names(_TQ):      # transformers on every class of depth 2 for the quick-tier bound types
+        runs.append({"harness": "shapes_c03_all", "args": ["--shape", n, "--mode", "C03", "--dim", "2", "--depth", "2", "--depth-ops", "2", "--consts", "small", "--what", "ops"], "budget": 1500})
     return runs
 CHECKS = {
     "C03": {"runs": _runs, "level": "model_checking", "parallel_runs": 4,
